@@ -7,7 +7,7 @@ list with the stack vocabulary of `Spec/SeqSpec.lean` (top = end of the list). -
 namespace CC.Driver.StackD
 open CC CC.Driver
 open CC.Driver.ArrayD (parseF32 defaultFactor effFactor growF exGeF predEven fmtLast fmtBool fmtOut fmtOut2 NSLOT growCheck absurdBegin absurdEnd
-  SSlot SpecSess finS roomFired roomSched nextCap)
+  SSlot SpecSess finS roomFired roomSched nextCap specIt specZip2)
 
 structure Sess where
   slots  : List (Option Stack) := [none, none, none, none]
@@ -32,7 +32,7 @@ def obsM (s : Sess) : String :=
   String.join <| (List.range NSLOT).map fun k =>
     match s.stk k with
     | none => ""
-    | some a => s!" a{k}={fmtList a.abs} n{k}={a.size} l{k}={fmtLast (a.peek {}).2.1}"
+    | some a => s!" a{k}={fmtList (CC.Driver.ArrayD.fastAbs a.v)} n{k}={a.size} l{k}={fmtLast (a.peek {}).2.1}"
 def obsS (s : Sess) : String :=
   String.join <| (List.range NSLOT).map fun k =>
     match s.lst k with
@@ -138,13 +138,9 @@ def specStep (s : SpecSess) (c : Cmd) : SpecSess × String :=
             let r2 := Spec.Seq.replaceAt r1.2.2 y (Spec.Seq.wdec pos)
             finS (s.set k1 (some { s1 with xs := r2.2.2 })) (fmtOut2 .ok (some (r1.2.1.getD 0, r2.2.1.getD 0)))
         else
-        let zc : Spec.Seq.ZipCursor := { done1 := s1.xs.take pos, todo1 := s1.xs.drop pos, done2 := s2.xs.take pos,
-                                         todo2 := s2.xs.drop pos, removed := rm }
-        let put (s : SpecSess) (zc : Spec.Seq.ZipCursor) : SpecSess :=
-          { (s.set k1 (some { s1 with xs := zc.content1 })).set k2 (some { s2 with xs := zc.content2 }) with
-            zit := some (k1, k2, zc.done1.length, zc.removed) }
-        if c.op == "zit_next" then let (sst, so, zc') := zc.next; finS (put s zc') (fmtOut2 sst so)
-        else let (sst, so, zc') := zc.replace x y; finS (put s zc') (fmtOut2 sst so)
+        let (sst, so, xs1, xs2, pos', rm') := specZip2 c.op s1.xs s2.xs pos rm x y none
+        finS { (s.set k1 (some { s1 with xs := xs1 })).set k2 (some { s2 with xs := xs2 }) with zit := some (k1, k2, pos', rm') }
+          (fmtOut2 sst so)
       | _, _ => msg "noiter"
     | none => msg "noiter"
   | "it_new" =>
@@ -154,11 +150,8 @@ def specStep (s : SpecSess) (c : Cmd) : SpecSess × String :=
     | some (k1, pos, rm) =>
       match s.get k1 with
       | some sl =>
-        let cur : Spec.Seq.Cursor := { done := sl.xs.take pos, todo := sl.xs.drop pos, removed := rm }
-        let put (s : SpecSess) (cu : Spec.Seq.Cursor) : SpecSess :=
-          { s.set k1 (some { sl with xs := cu.content }) with it := some (k1, cu.done.length, cu.removed) }
-        if c.op == "it_next" then let (sst, so, cu) := cur.next; finS (put s cu) (fmtOut sst so)
-        else let (sst, so, cu) := cur.replace x; finS (put s cu) (fmtOut sst so)
+        let (sst, so, xs', pos', rm') := specIt c.op sl.xs pos rm x none
+        finS { s.set k1 (some { sl with xs := xs' }) with it := some (k1, pos', rm') } (fmtOut sst so)
       | none => msg "noiter"
     | none => msg "noiter"
   | "mk_new" | "mk_new_default" =>
@@ -191,6 +184,8 @@ def specStep (s : SpecSess) (c : Cmd) : SpecSess × String :=
 
 /-! ### the model pass (L3); the `S` line it computes from its shadow lists is discarded by `step` -/
 def stepM (s : Sess) (c : Cmd) : Sess × String × String :=
+  -- the shadow lists follow the model (they only steer the protocol: which slots exist)
+  let s := { s with sslots := s.slots.map (fun (o : Option Stack) => o.map fun (t : Stack) => CC.Driver.ArrayD.fastAbs t.v) }
   let m := s.mem.begin c.sched
   let refused := c.fired > 0
   let k := let k := c.nat "o" 0; if k < NSLOT then k else 0
